@@ -234,6 +234,8 @@ def _check_value(res, v, quick):
     res.count('states')
     rep = {'part': 'value', 'value': repr(v)}
     key = _vshape(v)
+    if len(key) > 60:
+        key = '%s...%d' % (key[:40], len(key))
     try:
         sig = M.sigFromPy(v)
     except Exception as e:
@@ -408,6 +410,43 @@ def _task_values(task):
     return res
 
 
+def _long_values():
+    """values whose inferred signature (or whose Signature payload) has a
+    length on either side of 127/128 and up to the 255 limit"""
+    from txdbus import marshal as M
+    out = []
+    for total in (126, 127, 128, 129, 200, 254, 255):
+        n = total - 2
+        out.append(tuple(range(n)))                      # (iii...i)
+        out.append(tuple('s%d' % i for i in range(n)))   # (sss...s)
+        out.append(tuple([1, 'a'] * (n // 2) + [1.5] * (n % 2)))
+        if total <= 253:
+            out.append([tuple(range(n - 1))])            # a(ii...i)
+            out.append({'k': tuple(range(n - 5))})       # a{s(ii...i)}
+        out.append(M.Signature('i' * total))
+        out.append(M.Signature(('a{sv}' * 51)[:total - total % 5]))
+        out.append([M.Signature('y' * total), M.Signature('')])
+        out.append(('x', M.Signature('u' * total)))
+    return out
+
+
+def _shape_tag(v):
+    k = _vshape(v)
+    return k if len(k) <= 60 else '%s...%d' % (k[:40], len(k))
+
+
+def _task_long(quick):
+    res = core.Result()
+    vals = _long_values()
+    for v in vals:
+        before = len(res.violations)
+        _check_value(res, v, quick)
+        res.count('nontrivial')
+    res.sample({'long_values': len(vals),
+                'example': repr(vals[0])[:80] + '...'})
+    return res
+
+
 def run(ctx):
     Kf, Kr = (4, 5) if ctx.quick else (5, 6)
     ctx.rule = (
@@ -421,7 +460,8 @@ def run(ctx):
         'dicts, kept iff inside the claim by the reference rule; sigFromPy '
         'must give one complete type (wrappers exactly theirs) and the '
         'variant must encode, decode to an equal value and be readable by '
-        'the reference decoder. state = distinct signature / in-claim value; '
+        'the reference decoder; the same for values whose inferred signature '
+        'or Signature payload is 126..255 characters long. state = distinct signature / in-claim value; '
         'transition = one library call' % (Kf, Kr, len(_atoms())))
     ctx.bounds = {'K_full': Kf, 'K_reduced': Kr, 'value_depth': 2,
                   'value_width': 2}
@@ -432,6 +472,7 @@ def run(ctx):
     ctx.map(_task_split_special, [0])
     n = ctx.jobs * 2
     ctx.map(_task_values, [(ctx.quick, i, n) for i in range(n)])
+    ctx.map(_task_long, [ctx.quick])
 
 
 def replay(data):
